@@ -29,6 +29,14 @@ BF = "BasisFunctions."
 HZ = "Hierarchization.HierarchizationLSG.hierarchize_poles_for_dim"
 
 
+def _replace_term(t, old, new):
+    if t == old:
+        return new
+    if isinstance(t, tuple):
+        return tuple(_replace_term(x, old, new) for x in t)
+    return t
+
+
 def _product_loop(fi, target_attr=None, target_local=None):
     """Describe the filtered product loop of a Lagrange routine: (iter term, filter terms, factor term) or None."""
     tm = Terms(fi.node, max_depth=0)
@@ -135,6 +143,13 @@ def run(prog, ctx):
         raise AnalysisError("anchor vanished: the direct solve np.linalg.solve(<matrix>, <pole values>[n, :]) in %s" % hz.qual)
     MAT = dsolve[0].args[0].id
     rhs_ast = dsolve[0].args[1]
+    RHSN = None
+    if isinstance(rhs_ast, ast.Name):
+        # the right-hand side held in a temporary:  rhs = P[n, :]
+        bdef_ = R.reaching_unique_def(hz, rhs_ast.id, rhs_ast)
+        if bdef_ is not None and bdef_.kind == "assign" and bdef_.value is not None:
+            RHSN = rhs_ast.id
+            rhs_ast = bdef_.value
     PV = rhs_ast.value.id if isinstance(rhs_ast, ast.Subscript) and isinstance(rhs_ast.value, ast.Name) else None
     rt_ = tm.term(rhs_ast)
     ROW = rt_[2][1][1] if rt_[0] == "s" and rt_[2][0] == "tuple" and rt_[2][1][0] == "n" else None
@@ -190,7 +205,10 @@ def run(prog, ctx):
     solves = []
     for b in tm.env.bindings.get(HV, []):
         if b.kind == "assign":
-            solves.append(tm.term(b.value))
+            t_ = tm.term(b.value)
+            if RHSN is not None:
+                t_ = _replace_term(t_, ("n", RHSN), tm.term(rhs_ast))
+            solves.append(t_)
     rhs = ("s", ("n", PV), ("tuple", ("n", ROW), ("slice", ("c", "None"), ("c", "None"), ("c", "None"))))
     direct = ("call", ("a", ("a", ("n", "np"), "linalg"), "solve"), (("n", MAT), rhs), ())
     okd = direct in solves
@@ -272,8 +290,15 @@ def _accumulated(fi, name=None):
     accumulator is found by role: the returned local that is updated by augmented assignments"""
     from ..absint import poly_of_term, Poly
     tm = Terms(fi.node)
+    def self_update(st):
+        """`x = x + e` / `x = x - e`  ->  (op, e)"""
+        if isinstance(st, ast.Assign) and len(st.targets) == 1 and isinstance(st.targets[0], ast.Name) and isinstance(st.value, ast.BinOp) \
+                and isinstance(st.value.op, (ast.Add, ast.Sub)) and isinstance(st.value.left, ast.Name) and st.value.left.id == st.targets[0].id:
+            return st.value.op, st.value.right
+        return None
     if name is None:
         aug = {st.target.id for st in walk_local(fi.node) if isinstance(st, ast.AugAssign) and isinstance(st.target, ast.Name)}
+        aug |= {st.targets[0].id for st in walk_local(fi.node) if self_update(st) is not None}
         retn = [r.ast.value.id for r in R.return_paths(fi)[0] if isinstance(r.ast.value, ast.Name) and r.ast.value.id in aug]
         if not retn:
             return None
@@ -281,7 +306,12 @@ def _accumulated(fi, name=None):
     total = None
     n_assign = 0
     for st in walk_local(fi.node):
-        if isinstance(st, ast.Assign) and isinstance(st.targets[0], ast.Name) and st.targets[0].id == name:
+        su = self_update(st)
+        if su is not None and st.targets[0].id == name:
+            if total is None:
+                return None
+            total = total + poly_of_term(tm.term(su[1])) if isinstance(su[0], ast.Add) else total - poly_of_term(tm.term(su[1]))
+        elif isinstance(st, ast.Assign) and isinstance(st.targets[0], ast.Name) and st.targets[0].id == name:
             n_assign += 1
             total = poly_of_term(tm.term(st.value))
         elif isinstance(st, ast.AugAssign) and isinstance(st.target, ast.Name) and st.target.id == name:
